@@ -58,6 +58,7 @@ func checkC03(w *World, c *Check, tier string) {
 	c.floor("C03.invent", 5)
 	checkGobNothingInvented(w, c, t, "C03.invent")
 	checkGobNoDelete(w, c, "C03.RW")
+	checkGobReadersEveryExit(w, c, t, "C03.R-cover")
 	checkFlagDiscipline(w, c, "C03.flag", nil)
 	checkGobObjectRecognition(w, c)
 	for _, s := range w.TaggedStructs() {
@@ -578,7 +579,9 @@ func checkGobNothingInvented(w *World, c *Check, t *tables, rule string) {
 						other = r.String()
 					}
 				}
-				if other != "" {
+				if k, isConst := unwrap(st.Val).(*ssa.Const); isConst && k.Value != nil && !isZeroConst(k.Value) {
+					c.bad(rule, key, w.InstrPos(st), fmt.Sprintf("%s fills %s with the constant %s, not from the stored bytes: a value stored without that property (an untyped Link) reads back with one it never had — and a writer that relies on the default no longer stores what the reader puts back", funcName(f), fp.String(), k.Value.ExactString()))
+				} else if other != "" {
 					c.bad(rule, key, w.InstrPos(st), fmt.Sprintf("%s fills %s from %s of the value being built, not from the stored bytes: a value stored without that property reads back with one it never had", funcName(f), fp.String(), other))
 				} else {
 					c.ok(rule, key, w.InstrPos(st), "filled from the stored bytes")
@@ -609,4 +612,95 @@ func checkGobNoDelete(w *World, c *Check, rule string) {
 	if n == 0 {
 		c.ok(rule, "no-delete", "-", "no function removes an entry from a gob property map")
 	}
+}
+
+// checkGobReadersEveryExit: inside a gob reader, the look-up of each property's key lies on every path to a successful
+// return, except the paths taken for a nil or empty argument. An early `return nil` that decides from something
+// coarser — "a map with an id and at most two entries is a bare reference" — skips the properties behind it for the
+// stored values that take it.
+func checkGobReadersEveryExit(w *World, c *Check, t *tables, rule string) {
+	var fns []*ssa.Function
+	for f := range t.gobR {
+		fns = append(fns, f)
+	}
+	sort.Slice(fns, func(i, j int) bool { return funcName(fns[i]) < funcName(fns[j]) })
+	n := 0
+	for _, f := range fns {
+		if f.Blocks == nil {
+			continue
+		}
+		lh := loopHeaders(f)
+		done := map[*ssa.BasicBlock]bool{}
+		for _, st := range t.gobR[f] {
+			// the comma-ok look-up this read is guarded by
+			var test *ssa.BasicBlock
+			for _, g := range rawGuards(st.instr.Block()) {
+				if ex, isEx := g.cond.(*ssa.Extract); isEx && ex.Index == 1 && g.onTrue {
+					if lk, isLk := ex.Tuple.(*ssa.Lookup); isLk && lk.CommaOk {
+						test = lk.Block()
+					}
+				}
+			}
+			if test == nil || done[test] || len(lh[test]) > 0 || len(st.names) == 0 {
+				continue
+			}
+			done[test] = true
+			n++
+			seenB := map[*ssa.BasicBlock]bool{}
+			work := []*ssa.BasicBlock{f.Blocks[0]}
+			var escaped *ssa.BasicBlock
+			for len(work) > 0 && escaped == nil {
+				b := work[len(work)-1]
+				work = work[:len(work)-1]
+				if seenB[b] || b == test {
+					continue
+				}
+				seenB[b] = true
+				if len(b.Instrs) == 0 {
+					continue
+				}
+				last := b.Instrs[len(b.Instrs)-1]
+				if ret, isRet := last.(*ssa.Return); isRet {
+					if len(ret.Results) == 0 || isNilConst(ret.Results[len(ret.Results)-1]) {
+						escaped = b
+					}
+					continue
+				}
+				if iff, ok := last.(*ssa.If); ok {
+					skip := -1
+					for _, p := range f.Params {
+						if side, ok := nilSideOf(iff.Cond, p); ok {
+							skip = side
+						}
+					}
+					if bo, isB := iff.Cond.(*ssa.BinOp); isB {
+						if inner, isLen := lenOperand(bo.X); isLen {
+							if _, isP := inner.(*ssa.Parameter); isP {
+								if k, isC := constInt(bo.Y); isC && k == 0 {
+									switch bo.Op {
+									case token.EQL, token.LEQ:
+										skip = 0
+									case token.NEQ, token.GTR:
+										skip = 1
+									}
+								}
+							}
+						}
+					}
+					if skip >= 0 {
+						work = append(work, b.Succs[1-skip])
+						continue
+					}
+				}
+				work = append(work, b.Succs...)
+			}
+			key := "every-exit:" + funcName(f) + ":" + st.names[0]
+			if escaped != nil {
+				c.bad(rule, key, w.InstrPos(escaped.Instrs[len(escaped.Instrs)-1]), fmt.Sprintf("%s can return successfully for a non-empty property map without looking up %q (the look-up at %s): the stored values that take that path come back without the property", funcName(f), st.names[0], w.InstrPos(st.instr)))
+			} else {
+				c.ok(rule, key, w.InstrPos(st.instr), "the look-up lies on every path to a successful return")
+			}
+		}
+	}
+	c.stat("gob_reader_lookups_on_every_exit", n)
 }
